@@ -137,16 +137,39 @@ def strip_comments(src):
     return "".join(out)
 
 
-def forbidden_tokens():
+def import_closure(target):
+    """Files of this project transitively imported by the module `target` (e.g. CspuzModel.Properties.C04)."""
+    seen, todo, files = set(), [target], []
+    while todo:
+        m = todo.pop()
+        if m in seen:
+            continue
+        seen.add(m)
+        path = os.path.join(LEAN, *m.split(".")) + ".lean"
+        if not os.path.exists(path):
+            continue
+        files.append(path)
+        for line in open(path):
+            mm = re.match(r"\s*import\s+((?:CspuzModel|Driver)\.[A-Za-z0-9_.]+)", line)
+            if mm:
+                todo.append(mm.group(1))
+    return files
+
+
+def forbidden_tokens(target=None):
+    """Forbidden tokens (outside comments) in the import closure of `target` (whole library if None)."""
     hits = []
-    for root, _, files in os.walk(os.path.join(LEAN, "CspuzModel")):
-        for fn in files:
-            if fn.endswith(".lean"):
-                path = os.path.join(root, fn)
-                body = strip_comments(open(path).read())
-                for ln, line in enumerate(body.split("\n"), 1):
-                    if FORBIDDEN.search(line):
-                        hits.append(f"{os.path.relpath(path, LEAN)}:{ln}: {line.strip()[:120]}")
+    if target:
+        paths = import_closure(target)
+    else:
+        paths = []
+        for root, _, files in os.walk(os.path.join(LEAN, "CspuzModel")):
+            paths += [os.path.join(root, fn) for fn in files if fn.endswith(".lean")]
+    for path in paths:
+        body = strip_comments(open(path).read())
+        for ln, line in enumerate(body.split("\n"), 1):
+            if FORBIDDEN.search(line):
+                hits.append(f"{os.path.relpath(path, LEAN)}:{ln}: {line.strip()[:120]}")
     return hits
 
 
@@ -328,7 +351,7 @@ def run_check(mod, prop, tier, seed, replay_path=None):
         theorems = list(getattr(mod, "THEOREMS", []))
         ctx.obligations = len(theorems)
         if ok:
-            hits = forbidden_tokens()
+            hits = forbidden_tokens(target)
             if hits:
                 ctx.broken.append("forbidden tokens: " + "; ".join(hits[:5]))
             good, bad = audit(prop, theorems, target)
